@@ -100,6 +100,6 @@ for fn, spec in (("C03", c03), ("C16", c16), ("C07", c07)):
     if fn in CAPPED:
         cap_spec(spec)
     if fn == "C03":
-        quick_only(spec, keep=("H03-entry", "H03-scalars", "H03-ints", "H03-bytes", "H03-repscalar", "H03-arrays"))
+        quick_only(spec, keep=("H03-entry", "H03-scalars", "H03-ints", "H03-bytes", "H03-arrays"))
     json.dump(spec, open(os.path.join(root, "spec", fn + ".json"), "w"), indent=1)
 print("ok")
